@@ -225,6 +225,9 @@ def koyama_params(p):
         lp = lp_min * p['lp_f']
         if p['lp_f'] != 1.0:
             lp = max(float('%.9g' % lp), lp_min)
+        # "lp >= lp_min" is judged by the class with its own rounding of 4 l^3/(4 l^2 - sigma^2): stay one part in 1e12 above the
+        # boundary so that validity does not hinge on the last bit of that expression
+        lp = max(lp, lp_min * (1.0 + 1e-12))
         return s, l, lp, True
     if p['which'] == 'l':
         return s, float('%.6g' % (s * 0.5 * min(p['l_f'] / 2.1, 0.999))), p['lp_f'], False
